@@ -60,7 +60,9 @@ def run_group(ctx, prop, lean=True):
         eng = engine.Engine(repo, contracts, models)
         fname = '{}:{}'.format(rel, qual)
         try:
-            obs = eng.verify(rel, qual)
+            obs = []
+            for label, cv in pyrun.variants_of(c):
+                obs += eng.verify(rel, qual, contract=cv, label=label)
         except engine.Unsupported as e:
             p['unsupported'].append({'function': fname, 'reason': str(e)})
             print('PROOF-DEGRADED {}: function left the supported subset ({}); decided by the bounded tier only'.format(fname, e))
